@@ -460,3 +460,25 @@ Qed.
 
 Definition env_sensitive_sites : list (string * string * string) :=
   map (fun s => (s_file s, s_fn s, s_expr s)) (filter (fun s => env_sensitive (s_sink s)) site_table).
+
+(* the history oracle (what earlier generations of the interpreter did) over the table: EVERY row *)
+Lemma site_table_history_free : forallb (fun s => negb (history_sensitive (s_sink s))) site_table = true.
+Proof. vm_compute. reflexivity. Qed.
+
+Theorem emission_history_independent : forall s, In s site_table ->
+  forall (St : Type) (initial : St) (step : St -> St) n1 n2,
+  observe_history (s_sink s) initial step n1 = observe_history (s_sink s) initial step n2.
+Proof.
+  intros s Hin St initial step n1 n2.
+  pose proof site_table_history_free as H. rewrite forallb_forall in H. specialize (H s Hin).
+  destruct (s_sink s); try reflexivity. discriminate.
+Qed.
+
+(* why no row may be carried state: a later generation sees what the earlier ones left *)
+Theorem carried_state_is_history_sensitive : forall k, history_sensitive k = true ->
+  exists (initial : nat) (step : nat -> nat) n1 n2,
+  observe_history k initial step n1 <> observe_history k initial step n2.
+Proof. intros k H. destruct k; try discriminate. exists 0, S, 0, 1. simpl. discriminate. Qed.
+
+Definition history_sensitive_sites : list (string * string * string) :=
+  map (fun s => (s_file s, s_fn s, s_expr s)) (filter (fun s => history_sensitive (s_sink s)) site_table).
